@@ -79,6 +79,30 @@ def confirm(src, sid, prop):
     return ok
 
 
+def reconfirm():
+    """Do the seeded changes still break their demonstrations on the current tree (later fix:
+    commits can make one of them equivalent)? Reports only."""
+    ensure_wt()
+    for sid in sorted(os.listdir(SEEDED)):
+        d = os.path.join(SEEDED, sid)
+        mp = os.path.join(d, "meta.json")
+        demo = os.path.join(d, "demo_test.rs")
+        if not os.path.exists(mp) or not os.path.exists(demo) or not json.load(open(mp)).get("active", True):
+            continue
+        name = "demo_%s" % sid.replace("-", "_").lower()
+        sh("git checkout -- . && git clean -fdq tests src", cwd=WT)
+        shutil.copy(demo, os.path.join(WT, "tests", name + ".rs"))
+        rc_a, out_a = sh(["git", "apply", os.path.join(d, "patch.diff")], cwd=WT)
+        if rc_a != 0:
+            rc_a, out_a = sh("patch -p1 -s --fuzz=3 < %s" % os.path.join(d, "patch.diff"), cwd=WT)
+        if rc_a != 0:
+            print(sid, "PATCH-DOES-NOT-APPLY", flush=True)
+            continue
+        rc, out = sh(["cargo", "test", "--offline", "--features", "verif", "--test", name], cwd=WT)
+        print(sid, "still-breaks-demo" if rc != 0 and "test result: FAILED" in out else ("DEMO-PASSES-WITH-CHANGE" if rc == 0 else "demo-error rc=%d" % rc), flush=True)
+    sh("git checkout -- . && git clean -fdq tests src", cwd=WT)
+
+
 def repo_clean():
     rc, out = sh(["git", "-C", "/repo", "status", "--porcelain", "--untracked-files=no"])
     return out.strip() == ""
@@ -91,7 +115,13 @@ def evaluate(sid, checks, tier="quick", seed=None):
         checks = [meta["breaks_property"]]
     assert repo_clean(), "/repo has uncommitted changes"
     rc, out = sh(["git", "-C", "/repo", "apply", os.path.join(dst, "patch.diff")])
-    assert rc == 0, out
+    if rc != 0:
+        # context drifted because of a later fix: commit; try with fuzz, else skip this one
+        rc, out = sh("patch -p1 -s --fuzz=3 < %s && find src -name '*.orig' -delete" % os.path.join(dst, "patch.diff"), cwd="/repo")
+        if rc != 0:
+            sh(["git", "-C", "/repo", "checkout", "--", "."])
+            print(sid, "SKIPPED: patch no longer applies:", out[-200:])
+            return {}
     res = {}
     try:
         for c in checks:
@@ -130,9 +160,13 @@ if __name__ == "__main__":
         del a[i:i + 2]
     if a[0] == "confirm":
         sys.exit(0 if confirm(a[1], a[2], a[3]) else 1)
+    elif a[0] == "reconfirm":
+        reconfirm()
     elif a[0] == "eval":
         evaluate(a[1], a[2:], tier, seed)
     elif a[0] == "evalall":
+        only = [x for x in a[1:] if not x.startswith("-")]
         for sid in sorted(os.listdir(SEEDED)):
-            if os.path.exists(os.path.join(SEEDED, sid, "meta.json")):
+            mp = os.path.join(SEEDED, sid, "meta.json")
+            if os.path.exists(mp) and json.load(open(mp)).get("active", True) and (not only or any(sid >= o for o in only[:1])):
                 evaluate(sid, [], tier, seed)
